@@ -122,6 +122,7 @@ def quiet(fn):
 call_st = st.one_of(
     st.fixed_dictionaries({"f": st.just("map"), "layers": st.lists(st.sampled_from(["L1", "L2", "L3", "L3v"]), min_size=1, max_size=2),
                            "scatter": st.sampled_from([False, False, "L4", "L4a"]),
+                           "scatter_first": st.booleans(),
                            "res": st.sampled_from(["R", "R", "int", "default"]), "dz": st.sampled_from([None, "DZ1", "DZ2"]),
                            "dy": st.sampled_from([None, None, "DY"]),
                            "op": st.sampled_from([None, "mean", "sum"]), "dx": st.sampled_from(["DX", "DX", "DX", None]),
@@ -218,7 +219,9 @@ def _do_call(c, w):
             layers = [l for l in layers if not any(l is v for v in vecs)] or [w["L2"]]
         if c.get("scatter"):
             l4 = w["L4a"] if c["scatter"] == "L4a" else w["L4"]
-            layers = layers + [l4]
+            # (a scatter layer is not reduced: it must not take the place of a field layer's options, wherever it stands)
+            # (the first layer must be a mesh layer, it carries the positions: "first" = right behind it)
+            layers = layers[:1] + [l4] + layers[1:] if c.get("scatter_first") else layers + [l4]
             if c["dir"] in ("z", "x"):
                 kw["plot"] = True        # the scatter layer is only used when the figure is rendered
                 if "resolution" not in kw:
@@ -339,6 +342,12 @@ def _lattice_cases():
             for level in ("neither", "layer", "call", "both"):
                 for flip in (0, 1):
                     out.append({"f": f, "opt": opt, "level": level, "flip": flip, "other": None})
+        if f == "map":
+            # the same with a scatter layer standing before the two field layers (it is not reduced and must not shift
+            # the options of the layers behind it)
+            for opt in ("operation", "norm", "vmin"):
+                for level in ("layer", "call", "both"):
+                    out.append({"f": f, "opt": opt, "level": level, "flip": 0, "other": None, "scatter_first": True})
         # pairwise: a second option set at the opposite level
         for o1 in opts:
             for o2 in opts:
@@ -381,12 +390,20 @@ def lattice(case, r):
     if f == "map":
         la = dg.layer("scalar1", **lay_kw)
         lb = dg.layer("scalar2")
-        p, exc = quiet(lambda: osyris.map(la, lb, direction="z", dx=0.9137 * osyris.units("cm"), dz=0.5171 * osyris.units("cm"),
+        pre = []
+        if case.get("scatter_first"):
+            pre = [Layer(osyris.Vector(*[osyris.Array(values=np.array([0.2, 0.5, 0.8, 0.55]) + 0.01 * i, unit="cm") for i in range(3)],
+                                       name="sinks"), mode="scatter", c="red")]
+            r.label("scatter_layer_first")
+        # (the first layer must be a mesh layer: it carries the positions) order: lb, scatter, la
+        order = [lb] + pre + [la] if pre else [la, lb]
+        p, exc = quiet(lambda: osyris.map(*order, direction="z", dx=0.9137 * osyris.units("cm"), dz=0.5171 * osyris.units("cm"),
                                           origin=osyris.Vector(0.5217, 0.4723, 0.5611, unit="cm"), resolution={"x": 5, "y": 5, "z": 4},
                                           plot=False, **call_kw))
         ref = {}
+        ref_order = ("scalar2", "scalar1") if pre else ("scalar1", "scalar2")
         for op in ("sum", "mean"):
-            ref[op], _ = quiet(lambda op=op: osyris.map(dg.layer("scalar1"), dg.layer("scalar2"), direction="z",
+            ref[op], _ = quiet(lambda op=op: osyris.map(dg.layer(ref_order[0]), dg.layer(ref_order[1]), direction="z",
                                                         dx=0.9137 * osyris.units("cm"), dz=0.5171 * osyris.units("cm"),
                                                         origin=osyris.Vector(0.5217, 0.4723, 0.5611, unit="cm"),
                                                         resolution={"x": 5, "y": 5, "z": 4}, plot=False, operation=op))
@@ -436,7 +453,10 @@ def lattice(case, r):
     if exc is not None:
         r.bad(["lattice", "raises", f, opt, level], f"{exc!r}; layer kw {lay_kw} call kw {list(call_kw)}")
         return
-    for k, first in ((0, True), (1, False)):
+    if len(p.layers) != 2:
+        r.bad(["lattice", "layer-count", f], f"{len(p.layers)} layers returned for two field layers")
+        return
+    for k, first in (((1, True), (0, False)) if case.get("scatter_first") else ((0, True), (1, False))):
         lay = p.layers[k]
         for o in settings:
             e = eff(o, first)
